@@ -213,6 +213,13 @@ func c14Sess(ctx context.Context, s Session, end func(bool)) verifc14.Sess {
 			return raw != nil, err
 		},
 		CV: c14CV(ctx),
+		RawEnd: func(commit bool) error {
+			raw := s.(txSession).Tx
+			if commit {
+				return raw.Commit()
+			}
+			return raw.Rollback()
+		},
 		RawExec: func(q string) error {
 			rs := NewSessionFromTx(s.(txSession).Tx)
 			if ctx != nil {
@@ -299,6 +306,14 @@ func c14Gen(r *verifh.Rng) []verifh.Section {
 		}
 		secs = append(secs, verifh.Section{Cfg: fmt.Sprintf("via=%s accept=%s accept1=%s rec=%d", c.via, c.a0, c.a1, rec), Ops: ops})
 	}
+	// bodies that end the raw *sql.Tx themselves, through every way of getting to transactOnConn
+	rawLen := verifh.Scale(2, 4)
+	secs = append(secs, verifh.Section{Cfg: "via=fromdb accept=none rec=1", Ops: verifc14.ExhaustiveRaw("plain", rawLen)})
+	secs = append(secs, verifh.Section{Cfg: "via=named accept=user rec=1", Ops: verifc14.ExhaustiveRaw("ctx", rawLen)})
+	secs = append(secs, verifh.Section{Cfg: "via=onconn accept=none rec=0", Ops: verifc14.ExhaustiveRaw("ctx", rawLen)})
+	// two transactions in flight on one pool (the two SqlConn instances of the section share the *sql.DB / datasource)
+	secs = append(secs, verifh.Section{Cfg: "via=fromdb accept=none accept1=none rec=0", Ops: verifc14.ParOps(r, verifh.Scale(20, 200))})
+	secs = append(secs, verifh.Section{Cfg: "via=named accept=user accept1=none rec=0", Ops: verifc14.ParOps(r, verifh.Scale(10, 100))})
 	nsec := verifh.Scale(80, 1500)
 	for i := 0; i < nsec; i++ {
 		via := "fromdb"
